@@ -691,3 +691,54 @@ func vBezierBoxes() (n int, fails []string) {
 
 //@ bounded vBezierBoxes computeBezierBoundingBox on every line and on 235 298 cubic curves over seven coordinate values (0, 1, -1, the largest float32, +Inf, -Inf, NaN): returns without panicking
 //@   props C01 C18
+
+// bounded stand-in (C01 / C18): SVG gradients. A gradient fill is laid out from attributes that the document
+// controls entirely: radii (r, fr) that are zero, negative or inverted, coinciding or unordered stop offsets,
+// vectors of zero or enormous length, with the repeat and reflect spread methods. vSVGGradients parses and
+// draws a rectangle filled with every radial gradient over 5 outer radii x 5 focal radii and every linear
+// gradient over 6 x 6 end points, 3 spread methods, 2 unit systems and 6 stop lists: none may panic, exhaust
+// the memory or run for ever (the whole enumeration is under the 60 s watchdog of the harness).
+func vSVGGradients() (n int, fails []string) {
+	stops := []string{
+		`<stop offset="0" stop-color="red"/><stop offset="1" stop-color="blue"/>`,
+		`<stop offset="0.5" stop-color="red"/><stop offset="0.5" stop-color="blue"/>`,
+		`<stop offset="1" stop-color="red"/><stop offset="0" stop-color="blue"/>`,
+		`<stop offset="0.2" stop-color="red"/><stop offset="0.2000001" stop-color="blue"/><stop offset="0.9" stop-color="lime"/>`,
+		`<stop offset="-1" stop-color="red"/><stop offset="2" stop-color="blue"/>`,
+		`<stop offset="0.3" stop-color="red"/>`,
+	}
+	try := func(name, def string) {
+		n++
+		defer func() {
+			if r := recover(); r != nil && len(fails) < 6 {
+				fails = append(fails, fmt.Sprintf("%s: panic: %v", name, r))
+			}
+		}()
+		src := `<svg xmlns="http://www.w3.org/2000/svg" width="100" height="50"><defs>` + def + `</defs><rect width="100" height="50" fill="url(#g)"/></svg>`
+		if img, err := Parse(strings.NewReader(src), "", nil, nil); err == nil {
+			img.Draw(vCanvas{}, 100, 50, nil)
+		}
+	}
+	for _, spread := range []string{"pad", "repeat", "reflect"} {
+		for _, units := range []string{"objectBoundingBox", "userSpaceOnUse"} {
+			for _, st := range stops {
+				for _, r := range []string{"0", "0.0000001", "0.5", "2", "-1"} {
+					for _, fr := range []string{"-0.5", "0", "0.25", "0.5", "3"} {
+						def := fmt.Sprintf(`<radialGradient id="g" spreadMethod="%s" gradientUnits="%s" cx="0.5" cy="0.5" fx="0.4" fy="0.5" r="%s" fr="%s">%s</radialGradient>`, spread, units, r, fr, st)
+						try(def, def)
+					}
+				}
+				for _, x1 := range []string{"0", "0.0000001", "0.5", "1", "10000000", "-1"} {
+					for _, x2 := range []string{"0", "0.0000001", "0.5", "1", "10000000", "-1"} {
+						def := fmt.Sprintf(`<linearGradient id="g" spreadMethod="%s" gradientUnits="%s" x1="%s" y1="0" x2="%s" y2="0.0000001">%s</linearGradient>`, spread, units, x1, x2, st)
+						try(def, def)
+					}
+				}
+			}
+		}
+	}
+	return n, fails
+}
+
+//@ bounded vSVGGradients svg.Parse and Draw of a rectangle filled with every radial gradient over 5 x 5 radii (zero, tiny, negative, inverted) and every linear gradient over 6 x 6 end points, 3 spread methods, 2 unit systems, 6 stop lists (2 196 gradients): returns without panicking, exhausting memory or hanging
+//@   props C01 C18
